@@ -20,12 +20,12 @@ func init() {
 	registry["C16"] = &propSpec{Rules: []ruleFn{ruleC16Ctl, ruleC16Repl}, Explanation: "tbd", NotDecided: "tbd"}
 	registry["C18"] = &propSpec{Rules: []ruleFn{ruleC18, ruleCanAdd("C18-ADMIT"), ruleC04Promote("C18-MODE")}, Explanation: "tbd", NotDecided: "tbd"}
 	registry["C19"] = &propSpec{Rules: []ruleFn{ruleC19Promote("C19-PROMOTE"), ruleC19Clone}, Explanation: "tbd", NotDecided: "tbd"}
-	registry["C14"] = &propSpec{Rules: []ruleFn{ruleC14Lock}, Explanation: "tbd", NotDecided: "tbd"}
+	registry["C14"] = &propSpec{Rules: []ruleFn{ruleC14Lock, ruleC14Wrap, ruleC17Matrix, ruleC17Srv}, Explanation: "tbd", NotDecided: "tbd"}
 	registry["C06"] = &propSpec{Rules: []ruleFn{ruleC06Hole, ruleC06Snapstep}, Explanation: "tbd", NotDecided: "tbd"}
 	registry["C08"] = &propSpec{Rules: []ruleFn{ruleC08Atomic, ruleC08Err, ruleC08Commit, ruleC08Dur}, Explanation: "tbd", NotDecided: "tbd"}
 	registry["C10"] = &propSpec{Rules: []ruleFn{ruleC10, ruleC04Verify("C10-PROMOTE-COPY")}, Explanation: "tbd", NotDecided: "tbd"}
 	registry["C11"] = &propSpec{Rules: []ruleFn{ruleC11Refuse("C11-REFUSE"), ruleC11Sync}, Explanation: "tbd", NotDecided: "tbd"}
 	registry["C12"] = &propSpec{Rules: []ruleFn{ruleC12, ruleC08Commit}, Explanation: "tbd", NotDecided: "tbd"}
 	registry["C15"] = &propSpec{Rules: []ruleFn{ruleC15Codec, ruleC15Client, ruleC05Ping("C15-PING")}, Explanation: "tbd", NotDecided: "tbd"}
-	registry["C17"] = &propSpec{Rules: []ruleFn{ruleC17Attach}, Explanation: "tbd", NotDecided: "tbd"}
+	registry["C17"] = &propSpec{Rules: []ruleFn{ruleC17Attach, ruleC17Srv, ruleC17Matrix, ruleC11Refuse("C17-RW-ONLY"), ruleC10}, Explanation: "tbd", NotDecided: "tbd"}
 }
